@@ -135,6 +135,11 @@ func init() {
 		ex.preemptAtGo = a[0].(bool)
 		return nil
 	})
+	// PreemptAtLocks(on): every lock acquisition (also an uncontended one) is preceded by a scheduling point.
+	v("PreemptAtLocks", func(ex *Exec, c *frame, fn *ssa.Function, a []Value) Value {
+		ex.preemptAtLocks = a[0].(bool)
+		return nil
+	})
 	v("AtomicOps", func(ex *Exec, c *frame, fn *ssa.Function, a []Value) Value { return int64(ex.atomicOps) })
 	// RaceReports(): the data races seen so far on this path (both accesses in code under test), one string
 	// "kind: first-access-position / second-access-position" each.
